@@ -426,8 +426,10 @@ def _pair_rows(args):
                 refusals.append([src, rec['status']])
     # pairs the assembler itself writes for a pc-relative value: call / tail / li %offset to an ABSOLUTE address held in a constant,
     # behind an instruction that compression shortens (so the position the offset is taken from moves between the passes)
-    for v in values[:: max(1, len(values) // 60)]:
-        K = v % 2**32
+    kvals = [v % 2**32 for v in values[:: max(1, len(values) // 60)]]
+    # ... and targets whose offset, seen from the auipc / from the jalr, has a low part of 0, 2, 4 (nothing left for the jalr to add)
+    kvals += [base + r for base in (0x20001000, 0x08000000, 0x00100000) for r in (0, 2, 4, 6, 8, 10)]
+    for K in kvals:
         for kind, line in (('auipc+jalr/offset-const', 'call K'), ('auipc+jalr/offset-const', 'tail K'), ('lui+addi/offset-const', 'li x9, %offset(K)')):
             if 'jalr' in kind and K % 2:
                 continue
